@@ -101,12 +101,12 @@ type c06Actor struct {
 	name  string
 	dwell int // 0 none, 1 Gosched, 2 spin ~50us, 3 sleep 100us..1ms
 	// word: 0 free, else gid<<2 | 1 (receive) / 2 (poststop)
-	word       atomic.Int64
-	handled    atomic.Int64
-	postStops  atomic.Int64
-	preStarts  atomic.Int64
-	racedStops atomic.Int64 // PostStop entries that found senders still active
-	busyStops  atomic.Int64 // PostStop entries from another goroutine that found the word held by a Receive
+	word         atomic.Int64
+	handled      atomic.Int64
+	postStops    atomic.Int64
+	preStarts    atomic.Int64
+	racedStops   atomic.Int64 // PostStop entries that found senders still active
+	busyStops    atomic.Int64 // PostStop entries from another goroutine that found the word held by a Receive
 	stopsThisInc atomic.Int64
 }
 
@@ -229,14 +229,14 @@ type c06Finding struct {
 // c06Judge runs the per-(actor, incarnation) automaton over the log.
 func c06Judge(evs []c06Ev) []c06Finding {
 	type st struct {
-		inc          int
-		preDone      bool
-		inPre        bool
-		psEnter      int // PostStop entries in this incarnation
-		psOpen       bool
-		psGid        int64
-		psExitSeq    int64
-		open         map[int64]int64 // gid -> RecvEnter seq of the Receive in progress on that goroutine
+		inc       int
+		preDone   bool
+		inPre     bool
+		psEnter   int // PostStop entries in this incarnation
+		psOpen    bool
+		psGid     int64
+		psExitSeq int64
+		open      map[int64]int64 // gid -> RecvEnter seq of the Receive in progress on that goroutine
 	}
 	states := map[string]*st{}
 	var out []c06Finding
@@ -312,18 +312,18 @@ func (k c06Knobs) String() string {
 var c06Paths = []string{
 	"poisonpill", "self-shutdown", "kill-external", "stop-external", "stop-parent-turn",
 	"parent-poisonpill", "parent-kill", "supervisor-stop-one", "supervisor-stop-all",
-	"passivate-time", "passivate-count", "restart-external", "system-stop", "double-stop", "kill-vs-passivate",
+	"passivate-time", "passivate-count", "restart-external", "system-stop", "double-stop", "kill-vs-passivate", "supervisor-restart",
 }
 
 // paths for which the target must be a child of the harness parent
 var c06NeedsParent = map[string]bool{
 	"stop-external": true, "stop-parent-turn": true, "parent-poisonpill": true, "parent-kill": true,
-	"supervisor-stop-one": true, "supervisor-stop-all": true, "double-stop": true,
+	"supervisor-stop-one": true, "supervisor-stop-all": true, "double-stop": true, "supervisor-restart": true,
 }
 
 func c06GenKnobs(rng *rand.Rand, i int) c06Knobs {
 	k := c06Knobs{
-		Path:      c06Paths[(i+rng.Intn(2)*7)%len(c06Paths)],
+		Path:      c06Paths[(i+rng.Intn(2)*8)%len(c06Paths)],
 		TopLevel:  rng.Intn(2) == 0,
 		Dwell:     rng.Intn(4),
 		Senders:   1 + rng.Intn(3),
@@ -342,22 +342,22 @@ func c06GenKnobs(rng *rand.Rand, i int) c06Knobs {
 }
 
 type c06Obs struct {
-	Knobs      c06Knobs
-	Findings   []c06Finding
-	Overlaps   []c06Overlap
-	Events     int
-	Receives   int64
-	PostStops  int64
-	Raced      bool // the target's PostStop began while senders were still sending
-	Busy       bool // ... and found a Receive in progress on another goroutine
-	Stopped    bool
-	Watchdog   string
-	HotSites   []string
-	Yields     int64
-	Delays     int64
-	StopErr    string
-	APIPanics  []string // panics of framework API calls recovered by the harness (not this property's verdict)
-	evs        []c06Ev
+	Knobs     c06Knobs
+	Findings  []c06Finding
+	Overlaps  []c06Overlap
+	Events    int
+	Receives  int64
+	PostStops int64
+	Raced     bool // the target's PostStop began while senders were still sending
+	Busy      bool // ... and found a Receive in progress on another goroutine
+	Stopped   bool
+	Watchdog  string
+	HotSites  []string
+	Yields    int64
+	Delays    int64
+	StopErr   string
+	APIPanics []string // panics of framework API calls recovered by the harness (not this property's verdict)
+	evs       []c06Ev
 }
 
 // window returns the log around a finding, restricted to its actor and the stop calls.
@@ -440,6 +440,8 @@ func c06RunCase(t *testing.T, k c06Knobs, seed int64) c06Obs {
 	switch k.Path {
 	case "supervisor-stop-one":
 		topts = append(topts, WithSupervisor(supervisor.NewSupervisor(supervisor.WithAnyErrorDirective(supervisor.StopDirective))))
+	case "supervisor-restart":
+		topts = append(topts, WithSupervisor(supervisor.NewSupervisor(supervisor.WithAnyErrorDirective(supervisor.RestartDirective), supervisor.WithRetry(100, time.Hour))))
 	case "supervisor-stop-all":
 		sup := supervisor.NewSupervisor(supervisor.WithStrategy(supervisor.OneForAllStrategy), supervisor.WithAnyErrorDirective(supervisor.StopDirective))
 		topts = append(topts, WithSupervisor(sup))
@@ -469,7 +471,11 @@ func c06RunCase(t *testing.T, k c06Knobs, seed int64) c06Obs {
 
 	// steady traffic
 	var wg sync.WaitGroup
-	keepGoing := k.Path == "restart-external" || k.Path == "passivate-time"
+	keepGoing := k.Path == "restart-external" || k.Path == "passivate-time" || k.Path == "supervisor-restart"
+	// on the restart paths the senders keep sending until the restarts are over, so that
+	// traffic is present while the new incarnation's PreStart runs
+	var restartsDone atomic.Bool
+	untilDone := k.Path == "restart-external" || k.Path == "supervisor-restart"
 	for s := 0; s < k.Senders; s++ {
 		wg.Add(1)
 		lg.sendersActive.Add(1)
@@ -477,8 +483,11 @@ func c06RunCase(t *testing.T, k c06Knobs, seed int64) c06Obs {
 		go func(s int) {
 			defer wg.Done()
 			defer lg.sendersActive.Add(-1)
-			for i := 0; i < k.Burst; i++ {
+			for i := 0; i < k.Burst || (untilDone && !restartsDone.Load() && i < 300000); i++ {
 				err := Tell(ctx, target, &c06Msg{N: i})
+				if err != nil && untilDone {
+					runtime.Gosched()
+				}
 				if k.Path == "supervisor-stop-all" {
 					_ = Tell(ctx, sibling, &c06Msg{N: i})
 				}
@@ -542,6 +551,16 @@ func c06RunCase(t *testing.T, k c06Knobs, seed int64) c06Obs {
 			time.Sleep(time.Duration(rng.Intn(800)) * time.Microsecond)
 		}
 		wantStops = int64(n)
+		restartsDone.Store(true)
+	case "supervisor-restart":
+		// the supervisor's Restart directive re-initialises the suspended actor (no PostStop, new PreStart)
+		stopCall("Tell(target,panic) with Restart directive", func() error { return Tell(ctx, target, &c06Msg{Cmd: "panic"}) })
+		wantStops = 0
+		if !verifrt.WaitUntil(30*time.Second, func() bool { return targetAct.preStarts.Load() >= 2 }) {
+			obs.Watchdog = "no second PreStart within 30s after a failure with Restart directive"
+		}
+		time.Sleep(time.Duration(rng.Intn(500)) * time.Microsecond)
+		restartsDone.Store(true)
 	case "system-stop":
 		stopCall("sys.Stop", func() error {
 			sctx, cancel := context.WithTimeout(ctx, 60*time.Second)
